@@ -38,6 +38,7 @@ impl PartialLookup<Handle> {
 }
 //@item src/resolvers.rs :: enum ResolverBackend | sub.ResolverBackend
 //@item src/resolvers.rs :: struct Resolver | sub.Resolver
+//@include prelude/resolver_cfg.rs
 impl Resolver {
 //@use resolvers.Resolver.resolve_partial
 }
